@@ -85,6 +85,7 @@ IO = {0x1111: dict(codec=('B', 1), mask={'a': 1, 'b': 2, 'c': 0x80}, mask_size=1
       0x4646: dict(codec=('B', 1), mask={'top': 0xFF, 'low': 1}, mask_size=1),           # a mask equal to the largest value its declared size holds is in the domain
       0x4747: dict(codec=('B', 2), mask={'w': 0xFFFF, 'v': 0x0100}, mask_size=2),
       0x5555: dict(codec=('B', 1), mask_size=2),
+      0x5656: dict(codec=('B', 1), mask_size=0),                                         # a declared size of zero without masks is a valid (if useless) entry
       0x6666: dict(codec=('B', 1), mask={'big': 0x1FF}, mask_size=1),
       0x7777: dict(codec=('raw', 2), mask={'m': 0x00FF00, 'n': 1 << 55, 'o': 1 << 56}),
       0x8888: dict(codec=('all', None), mask={'p': 1}, mask_size=0),
